@@ -135,12 +135,18 @@ func c04Peer(args []string) int {
 		}
 		kind := tamperOf(req.TestName)
 		c04PeerTamper(&req, kind)
-		if err := internal.WriteDelimitedMessage(cin, &req); err != nil {
-			return 4
-		}
 		var resp conformancev1.ClientCompatResponse
-		if err := internal.ReadDelimitedMessage(out, &resp, "reference client", time.Minute, 16<<20); err != nil {
-			return 4
+		if key, ok := strings.CutPrefix(kind, "err:"); ok && len(key) == 1 {
+			// the client reports an error of its own, with that message; no request is made
+			resp.TestName = req.TestName
+			resp.Result = &conformancev1.ClientCompatResponse_Error{Error: &conformancev1.ClientErrorResult{Message: c04Msgs[key[0]]}}
+		} else {
+			if err := internal.WriteDelimitedMessage(cin, &req); err != nil {
+				return 4
+			}
+			if err := internal.ReadDelimitedMessage(out, &resp, "reference client", time.Minute, 16<<20); err != nil {
+				return 4
+			}
 		}
 		if kind == "dup" {
 			// the same request once more; its result is dropped
@@ -261,7 +267,9 @@ type c04LoopIn struct {
 	// data for everything between the request header and the report, never syntax.
 	Names []string `json:"names,omitempty"`
 	// Tamper[i]: "" | dup | codec | compression | method — the client deviates on the wire for case i
-	// while it reports the expected result (only the reference server notices)
+	// while it reports the expected result (only the reference server notices); err:<key> — the
+	// client reports an error of its own for case i whose message is c04Msgs[key] (empty, blank, many
+	// lines, format verbs, long …)
 	Tamper []string `json:"tamper,omitempty"`
 	// Unanswered: stops readexit0 / readexit3 — how many further requests are read but never answered
 	Unanswered int `json:"unanswered,omitempty"`
@@ -345,11 +353,12 @@ func c04LoopSuiteNamed(cases []string, names []string) (string, []string, []stri
 
 // c04NameOK: what the transport between runner, client and reference server can carry as a test name
 // and the judge can tell apart: visible ASCII and blanks (the name travels in an HTTP header value),
-// no blank at either end, no line break; no pattern wildcard (the marking patterns are "V/**/<name>");
-// not the ": " that separates name and message on the reference server's feedback lines (a name
-// holding it cannot be carried by that framing — C12 feedback_line_attributed states the same limit).
+// no blank at either end, no line break; no pattern wildcard (the marking patterns are "V/**/<name>").
+// A name may hold the ": " that separates name and message on the reference server's feedback lines:
+// nothing validates test names, and the property speaks about every selected case (finding F32; the
+// random name pools do not contain it, two fixed scenarios do).
 func c04NameOK(n string) bool {
-	if n == "" || strings.HasPrefix(n, " ") || strings.HasSuffix(n, " ") || strings.Contains(n, ": ") ||
+	if n == "" || strings.HasPrefix(n, " ") || strings.HasSuffix(n, " ") ||
 		strings.Contains(n, "*") || strings.HasPrefix(n, "/") || strings.HasSuffix(n, "/") || strings.Contains(n, "//") {
 		return false
 	}
@@ -386,7 +395,9 @@ func c04RunLoop(c *gen.Ctx, in c04LoopIn) c04LoopOut {
 		switch t {
 		case "", "dup", "codec", "compression", "method":
 		default:
-			valid = false
+			if _, ok := c04Msgs[t[len(t)-1]]; !ok || len(t) != 5 || !strings.HasPrefix(t, "err:") {
+				valid = false
+			}
 		}
 	}
 	for _, code := range in.Cases {
@@ -561,7 +572,11 @@ func c04LoopGen(c *gen.Ctx) {
 		ins = append(ins, in)
 		tag := in.Stop
 		if len(in.Tamper) != 0 {
-			tag = "feedback:" + tag
+			if strings.Contains(strings.Join(in.Tamper, ","), "err:") {
+				tag = "client-error-message:" + tag
+			} else {
+				tag = "feedback:" + tag
+			}
 		}
 		if len(in.Names) != 0 {
 			tag += ":odd-names"
@@ -608,6 +623,7 @@ func c04LoopGen(c *gen.Ctx) {
 		{"n=1&m=2", "$HOME", "`id`", "a;b", "<x>", "\"quoted\"", "back\\slash", "{a,b}", "[1]", "~", "#c", "?q", "!bang", "'s'"},
 	}
 	tampers := []string{"dup", "codec", "compression", "method"}
+	codes0 := []string{"ru", "rf", "rk", "wu", "wf", "wk"}
 	fbScenario := func(i int) c04LoopIn {
 		n := r.Range(2, 3)
 		in := c04LoopIn{Layout: gen.Pick(r, []int{1, 1, 1, 2}), MaxServers: gen.Pick(r, []int{1, 4}), K: -1, Stop: "serve", Quiet: r.Bool()}
@@ -642,6 +658,40 @@ func c04LoopGen(c *gen.Ctx) {
 		}
 		addX(in)
 	}
+	// what the client SAYS when it reports an error never changes what happened (the message is
+	// empty, blank, many lines, format verbs, 10 KB …): unmarked => the run fails and names the case,
+	// known-failing / known-flaky => an expected failure
+	{
+		keys := append([]byte{}, c04MsgKeys...)
+		for i := len(keys) - 1; i > 0; i-- {
+			j := r.Intn(i + 1)
+			keys[i], keys[j] = keys[j], keys[i]
+		}
+		blank := []string{"err:e", "err:n", "err:b", "err:s"}
+		addX(c04LoopIn{Layout: 1, MaxServers: 1, Cases: []string{"ru", "ru", "rf"}, Tamper: []string{gen.Pick(r, blank), "", "err:" + string(keys[0])}, K: -1, Stop: "serve", Quiet: r.Bool()})
+		addX(c04LoopIn{Layout: 1, MaxServers: 1, Cases: []string{"rf", "rk", "ru"}, Tamper: []string{gen.Pick(r, blank), "err:" + string(keys[1]), ""}, K: -1, Stop: "serve"})
+		addX(c04LoopIn{Layout: gen.Pick(r, []int{1, 2}), MaxServers: 4, Cases: []string{"ru", "wu", "rk"}, Tamper: []string{"err:" + string(keys[2]), "err:" + string(keys[3]), "err:" + string(keys[4])}, K: -1, Stop: "serve", Quiet: true})
+		if c.Thorough() {
+			for i := 0; i < 30; i++ {
+				in := c04LoopIn{Layout: r.Range(1, 3), MaxServers: gen.Pick(r, []int{1, 4}), K: -1, Stop: "serve", Quiet: r.Bool()}
+				for j := r.Range(1, 3); j > 0; j-- {
+					in.Cases = append(in.Cases, gen.Pick(r, codes0))
+					t := ""
+					if r.Chance(2, 3) {
+						t = "err:" + string(c04MsgKeys[r.Intn(len(c04MsgKeys))])
+					}
+					in.Tamper = append(in.Tamper, t)
+				}
+				addX(in)
+			}
+		}
+	}
+	// F32 (known finding): a test name that contains ": " — the separator of the feedback lines.  The
+	// reference server's line "<name>: <message>" is split at the FIRST ": " by the runner's reader, the
+	// front part is not a test case, the complaint is forwarded as noise and the deviating case passes;
+	// with a case named by the front part in the same batch the complaint is recorded for that one.
+	addX(c04LoopIn{Layout: 1, MaxServers: 1, Cases: []string{"ru"}, Names: []string{"n0-x: y"}, Tamper: []string{gen.Pick(r, tampers)}, K: -1, Stop: "serve"})
+	addX(c04LoopIn{Layout: 1, MaxServers: 1, Cases: []string{"ru", "ru"}, Names: []string{"n0-x: y", "n0-x"}, Tamper: []string{"dup", ""}, K: -1, Stop: "serve", Quiet: true})
 	// the same with ordinary names; feedback on a known-failing case that otherwise passes makes it
 	// the expected failure (the run succeeds); a client that stops early after a deviating request
 	addX(c04LoopIn{Layout: 1, MaxServers: 1, Cases: []string{"ru", "ru", "rk"}, Tamper: []string{"", gen.Pick(r, tampers), ""}, K: -1, Stop: "serve"})
